@@ -28,11 +28,11 @@ def goEq : Val → Val → Bool
   | .scons a r, .scons b s => goEq a b && goEq r s
   | _, _ => false
 
-/-- `bytes.Equal`: contents only, nil and empty are the same. -/
+/-- `(this == nil) == (that == nil) && bytes.Equal(this, that)`: the `[]byte` field shortcut -/
 def bytesEqual : Val → Val → Res Bool
   | .nilv, .nilv => .ok true
-  | .nilv, .slice _ _ ys => .ok (ys.slen == 0)
-  | .slice _ _ xs, .nilv => .ok (xs.slen == 0)
+  | .nilv, .slice _ _ _ => .ok false
+  | .slice _ _ _, .nilv => .ok false
   | .slice _ _ xs, .slice _ _ ys => .ok (goEq xs ys)
   | _, _ => .panic
 
@@ -159,7 +159,7 @@ def field (env : Env) (F : Ty) (x y : Val) : Res Bool :=
     | .map K V => top env (.map K V) x y
     | .struct _ =>
       if F.isNamed then top env F x y               -- `field(&this, &that, *F)` → helper for `*F`, both non-nil
-      else .panic                                   -- unnamed non-comparable struct: generator diverges (C09)
+      else .panic                                   -- unnamed non-comparable struct: generator error, nothing emitted
     | _ => .panic
 termination_by (sizeOf x, 1)
 end
